@@ -367,7 +367,7 @@ def _deep_shard(item):
 def run(report):
     quick = report.tier == "quick"
     report.rule = RULE
-    switches = sorted(open_switches())
+    switches = sorted(open_switches('C13'))
     ns = env.NPROC * 2
     items = [(_aug_shard, (i, ns, switches)) for i in range(ns)]
     items += [(_pattern_shard, (i, ns, quick)) for i in range(ns)]
